@@ -42,13 +42,13 @@ fuzz_target!(|data: &[u8]| {
         1 => {
             let kind = pick(&mut u, &BitsKind::ALL);
             let bits: Vec<bool> = (0..n * 4).map(|_| u.arbitrary().unwrap_or(false)).collect();
-            let (bvhow, wrap) = if bits.is_empty() && plan_seed & 1 == 1 { (BvHow::Default, WrapHow::Default) } else { (pick(&mut u, &[BvHow::Bools, BvHow::Pushes, BvHow::PosUsize]), pick(&mut u, &[WrapHow::New, WrapHow::From, WrapHow::Collect])) };
+            let (bvhow, wrap) = if bits.is_empty() && plan_seed & 1 == 1 { (BvHow::Default, WrapHow::Default) } else { (pick(&mut u, &[BvHow::Bools, BvHow::Pushes, BvHow::PosUsize, BvHow::BoolsLoose(plan_seed as u8), BvHow::ExtendPieces(plan_seed as u8)]), pick(&mut u, &[WrapHow::New, WrapHow::From, WrapHow::Collect])) };
             AnyCase::Bits(BitsCase { kind, bvhow, wrap, content: BitContent::Explicit(bits), plan_seed })
         }
         _ => {
             let kind = pick(&mut u, &[QuadKind::Qv, QuadKind::Rs256, QuadKind::Rs512]);
             let q: Vec<u8> = (0..n * 4).map(|_| u.arbitrary::<u8>().unwrap_or(0) & 3).collect();
-            let how = if q.is_empty() && plan_seed & 1 == 1 { QuadHow::Default } else { pick(&mut u, &[QuadHow::FromQVector(IntTy::U8), QuadHow::NewSlice(IntTy::U64), QuadHow::Collect(IntTy::I16)]) };
+            let how = if q.is_empty() && plan_seed & 1 == 1 { QuadHow::Default } else { pick(&mut u, &[QuadHow::FromQVector(IntTy::U8), QuadHow::NewSlice(IntTy::U64), QuadHow::Collect(IntTy::I16), QuadHow::CollectLoose(IntTy::U8, plan_seed as u8), QuadHow::BuilderPieces(plan_seed as u8)]) };
             AnyCase::Quad(QuadCase { kind, how, content: QuadContent::Explicit(q), salt: plan_seed & 2, plan_seed })
         }
     };
